@@ -965,6 +965,14 @@ func (t *FnTrans) makeMap(x *ssa.MakeMap, st *HeapState, reach string) {
 	if comp, srt, ks, ok := t.mapComps(mt); ok {
 		arr := t.heapGet(st, comp, srt)
 		t.heapSet(st, comp, srt, sx("store", arr, name, sx("(as const "+arraySort(ks, "Bool")+")", "false")))
+		// the value components exist from now on, so that a later havoc knows
+		// them and carries the contents of a map this function owns across it
+		// (components are created lazily; one first mentioned by a clause after
+		// the havoc would otherwise come out of it arbitrary)
+		base := "M." + typeKey(mt) + ".val"
+		for _, cd := range t.mapValComps(mt) {
+			t.heapGet(st, base+cd.suffix, arraySort("Int", arraySort(ks, cd.sort)))
+		}
 	}
 	t.setVal(x, scalar(x.Type(), name))
 }
